@@ -479,10 +479,46 @@ def _seeding(ctx, rule):
     return c02.r6_seeding(ctx, rule)
 
 
+OPTION_PARAMS = ('skip_brute', 'skip_case', 'base_structure_folder')
+
+
+def r12_options_not_rebound(ctx, rule):
+    """The run options reach every test that consults them with the value the user gave: in the loaders and in PcfgGrammar.__init__
+    the parameters skip_brute / skip_case / base_structure_folder are never assigned.  (Seed C14-i cleared skip_brute between the
+    two passes over grammar.txt when total_prob was still 1.0 - "no Markov structure" - which is also what a Markov line of
+    probability 0 leaves behind, so that structure survived --skip_brute.)  Re-binding to a constant or under a condition is a
+    violation, a pure normalisation of the same value (bool(x)) is accepted, anything else is not decided."""
+    n = 0
+    bad = False
+    for q, fn in ctx.repo.all_funcs():
+        rel = q.partition('::')[0]
+        if rel not in ('lib_guesser/grammar_io.py', 'lib_guesser/pcfg_grammar.py', 'lib_guesser/cracking_session.py'):
+            continue
+        ps = [p_ for p_ in params(fn) if p_ in OPTION_PARAMS]
+        if not ps:
+            continue
+        stores = stores_in(fn)
+        for p_ in ps:
+            n += 1
+            for st, v in stores.get(p_, []):
+                if v is not None and isinstance(v, ast.Call) and call_name(v) == 'bool' and len(v.args) == 1 and U(v.args[0]) == p_:
+                    continue
+                bad = True
+                names = {x.id for x in ast.walk(v) if isinstance(x, ast.Name)} if v is not None else set()
+                if v is None or const(v) is not NOCONST or p_ not in names:
+                    ctx.bad(rule, q, 'option %s re-bound: %s' % (p_, U(st)[:60]),
+                            'the tests further down no longer see what the user asked for; whatever the reason for the shortcut, the '
+                            'option must hold for every ruleset (a Markov line of probability 0 leaves total_prob at 1.0 as well)', None, st)
+                else:
+                    ctx.unk(rule, q, 'option %s re-bound to %s' % (p_, U(v)[:60]))
+    if ctx.floor(rule, 'lib_guesser/grammar_io.py', n, 6, 'option parameters of the guesser loaders') and not bad:
+        ctx.ok(rule, 'lib_guesser/grammar_io.py', 'none of the %d option parameters is assigned in the function that receives it' % n)
+
+
 def rules(tier):
     return [('C14.R1', r1_rewind), ('C14.R2', r2_renormalisation), ('C14.R3', r3_skip_case),
             ('C14.R4', r4_restored_flags_live), ('C14.R5', lambda c, r: c08.r5_sav_keys(c, r, sections=('rule_info',), floor=4)), ('C14.R6', c01.r8_uniform_scale), ('C14.R7', r7_probabilities_immutable), ('C14.R8', r8_loader_stateless), ('C14.R9', c08.r11_restore_is_verbatim),
-            ('C14.R10', _seeding), ('C14.R11', r11_loaders_read_only)]
+            ('C14.R10', _seeding), ('C14.R11', r11_loaders_read_only), ('C14.R12', r12_options_not_rebound)]
 
 
 META = {
